@@ -1,11 +1,10 @@
 package main
 
 import (
-	"bufio"
 	"fmt"
-	"math"
 	"os"
 	"path/filepath"
+	"strings"
 
 	"github.com/ah-naf/borno/interpreter"
 	"github.com/ah-naf/borno/lexer"
@@ -52,18 +51,18 @@ func runFile(path string) {
 }
 
 func runPrompt() {
-	scanner := bufio.NewScanner(os.Stdin)
-	// no limit on the length of an input line (the default is 64 KiB, after
-	// which Scan gives up and the session would end without a response)
-	scanner.Buffer(nil, math.MaxInt)
+	// The prompt and ইনপুট read from one buffered reader: with a reader of its
+	// own the prompt would buffer (and later run as code) the lines that an
+	// input call of the current line is meant to consume. A line may have any
+	// length.
+	reader := interpreter.StdinReader()
 	for {
 		fmt.Printf(">> ")
-		scanned := scanner.Scan()
-		if !scanned {
+		line, err := reader.ReadString('\n')
+		if err != nil && line == "" {
 			return
 		}
-
-		line := scanner.Text()
+		line = strings.TrimSuffix(strings.TrimSuffix(line, "\n"), "\r")
 		run(line, true)
 
 		utils.HadError = false
